@@ -80,9 +80,19 @@ class Vec:
         else:
             self.segs[-1:] = [("rep", aff_add(s[1], {"": -1.0}), s[2]), ("one", e)]
 
-    def norm(self):
+    def canon_segs(self):
+        """a repeated segment of constant length 1 whose element does not depend on the position is a single element"""
         out = []
         for s in self.segs:
+            if s[0] == "rep" and aff_const(s[1]) == 1 and "[*]" not in (aff_txt(s[2]) if isinstance(s[2], dict) else str(s[2])):
+                out.append(("one", s[2]))
+            else:
+                out.append(s)
+        return out
+
+    def norm(self):
+        out = []
+        for s in self.canon_segs():
             if s[0] == "rep" and aff_const(s[1]) == 0:
                 continue
             out.append((s[0], aff_txt(s[1]) if s[0] == "rep" else None, aff_txt(s[-1]) if isinstance(s[-1], dict) else str(s[-1])))
@@ -107,8 +117,12 @@ class Interp:
         self.block(self.f.body, {}, [], False)
         return self.emitted
 
+    cond_reg = {}        # condition text -> (function, node): lets a rule look at the structure of a path condition
+
     def cond_txt(self, c):
-        return re.sub(r"\s+", "", render(c)).replace("this->", "").replace("GetMC().", "")
+        t = re.sub(r"\s+", "", render(c)).replace("this->", "").replace("GetMC().", "")
+        Interp.cond_reg[t] = (self.f, c)
+        return t
 
     # ---- statements ---------------------------------------------------------------------------
     def block(self, s, env, conds, each):
@@ -537,6 +551,17 @@ class Interp:
                     return Vec([("rep", v, {})])
                 raise Unsupported("vector from %s" % render(a[0])[:40])
             if len(a) == 2:
+                # the iterator-range form vector(c.begin(), c.end()): a copy of c
+                b0, e0 = strip(a[0]), strip(a[1])
+                while b0["k"] in ("CXXConstructExpr", "ImplicitCastExpr", "MaterializeTemporaryExpr") and kids(b0):
+                    b0 = strip(kids(b0)[0])
+                while e0["k"] in ("CXXConstructExpr", "ImplicitCastExpr", "MaterializeTemporaryExpr") and kids(e0):
+                    e0 = strip(kids(e0)[0])
+                if b0["k"] == "CXXMemberCallExpr" and e0["k"] == "CXXMemberCallExpr" and (b0.get("callee") or "").split("::")[-1] in ("begin", "cbegin") and \
+                        (e0.get("callee") or "").split("::")[-1] in ("end", "cend") and render(call_object(b0)) == render(call_object(e0)):
+                    src = self.value(call_object(b0), env)
+                    if isinstance(src, Vec):
+                        return src.copy()
                 n = self.value(a[0], env)
                 el = self.value(a[1], env)
                 if isinstance(n, dict) and not isinstance(el, Vec):
@@ -591,6 +616,7 @@ class Interp:
 
 def merge_vecs(vs):
     """element-wise union of vectors with the same segment structure"""
+    vs = [Vec(v_.canon_segs()) for v_ in vs]
     base = vs[0]
     out = []
     for j, sg in enumerate(base.segs):
@@ -598,7 +624,8 @@ def merge_vecs(vs):
         for v_ in vs:
             if len(v_.segs) != len(base.segs) or v_.segs[j][0] != sg[0]:
                 raise Unsupported("paths build vectors of different shape")
-            t = aff_txt(v_.segs[j][-1]) if isinstance(v_.segs[j][-1], dict) else str(v_.segs[j][-1])
+            el_ = generic(v_.segs[j][-1]) if sg[0] == "rep" else v_.segs[j][-1]      # inside a merged segment the position is the generic i
+            t = aff_txt(el_) if isinstance(el_, dict) else str(el_)
             if t not in alts:
                 alts.append(t)
         el = sg[-1] if len(alts) == 1 else {"either(%s)" % " | ".join(sorted(alts)): 1.0}
